@@ -132,6 +132,172 @@ def lazy_handshake_fn(facts, self_ty):
     return out[0]
 
 
+def tls_dispatch_table(ctx, facts, f, self_ty, key, nm):
+    """poll_flush / poll_shutdown of a lazy-handshake TLS stream as a two-row decision table: while handshaking the answer is
+    Ready(Ok(())) and nothing is touched; once streaming the call *is* the TLS stream's own method with the same context."""
+    import seqmodel
+    from core import AbsPaths, INT_CMP, VALUE_EQ, deref_value
+    from seqmodel import _arg, _set_dest, tup
+    u = facts.unit(f, expand=True)
+    adts = [a for pth, a in facts.adts.items() if pth.endswith(self_ty)]
+    if len(adts) != 1:
+        return ctx.missing(key + "|self-type", "type %s not found" % self_ty)
+    fl = adts[0]["variants"][0]["fields"]
+    si = [i for i, x in enumerate(fl) if x["name"] == "state" or x["ty"].split("<")[0].endswith("State")]
+    if len(si) != 1:
+        return ctx.missing(key + "|state-field", "no state field in %s" % self_ty)
+    LOG, LOC = -81, 9600
+
+    def o_pin_same(ev, st, t, site):
+        a = _arg(ev, st, t, 0)
+        if a is None:
+            return False
+        inner = deref_value(st, a, hops=1) if a[0] in ("ref", "refmut", "pref", "refval") else None
+        if inner is not None and inner[0] in ("refmut", "ref", "pref"):
+            return _set_dest(st, t, inner)
+        return _set_dest(st, t, a)
+
+    def o_inner(ev, st, t, site):
+        who = deref_value(st, _arg(ev, st, t, 0))
+        cx = deref_value(st, _arg(ev, st, t, 1))
+        if who != ("const", "TLS_STREAM"):
+            return False
+        l = st.get(LOG) or ("list", ())
+        st[LOG] = ("list", l[1] + (("const", "inner:%s:%s" % (norm(site.decl or site.name).split("::")[-1], cx[1] if cx is not None and cx[0] == "const" else "?")),))
+        return _set_dest(st, t, ("const", "INNER_RESULT"))
+    raw = [(r"Pin.* as std::ops::Deref(Mut)?.*::deref(_mut)?$|Pin.*::(new|as_mut|get_mut|new_unchecked|as_ref|get_ref|into_ref)$|Box.* as std::ops::Deref(Mut)?.*::deref(_mut)?$|Box.*::as_mut$|AsMut.*::as_mut$", o_pin_same),
+           (r"AsyncWrite.*::poll_(flush|shutdown)$", o_inner)] + seqmodel.OPTION_ORACLES
+    rows = 0
+    for state, payload, want in (("Handshake", ("const", "HANDSHAKE_FUTURE"), ((), "Ready(Ok(()))")), ("Streaming", ("const", "TLS_STREAM"), (("inner:%s:CX" % nm,), "INNER_RESULT"))):
+        fields = tuple((i, ("variant", state, ((0, payload),)) if i == si[0] else ("const", "F_" + x["name"])) for i, x in enumerate(fl))
+        st = {1: ("refmut", LOC), LOC: ("variant", self_ty.split("::")[-1], fields), 2: ("const", "CX"), LOG: ("list", ())}
+        try:
+            outs = AbsPaths(u, limit=4000, raw_oracles=raw, oracles=[INT_CMP, VALUE_EQ]).outcomes(state=st, extra_keys=(LOG,))
+        except AbsPaths.Undecided as e:
+            ctx.undecided("%s|state-dispatch|%s" % (key, state), str(e), f.where())
+            continue
+        rows += 1
+        got = set()
+        for (rv, _, (lg,)) in outs:
+            r = "?"
+            if rv == ("const", "INNER_RESULT"):
+                r = "INNER_RESULT"
+            elif rv is not None and rv[0] == "variant" and rv[1] == "Ready":
+                x = dict(rv[2]).get(0)
+                if x is not None and x[0] == "variant" and x[1] == "Ok":
+                    r = "Ready(Ok(()))"
+                elif x is not None and x[0] == "variant":
+                    r = "Ready(%s)" % x[1]
+            elif rv is not None and rv[0] == "variant":
+                r = rv[1]
+            got.add((tuple(e[1] for e in lg[1]) if lg is not None else None, r))
+        ctx.check(got == {want}, "%s|state-dispatch|%s" % (key, state),
+                  "%s in state %s: %s" % (nm, state, "answers Ready(Ok(())) and touches nothing" if state == "Handshake" else "is the TLS stream's own %s with the same context" % nm),
+                  "%s in state %s can do %s, expected %s" % (nm, state, sorted(map(str, got)), want), f.where())
+    return rows
+
+
+def tls_handshake_table(ctx, facts, hs_fn, self_ty, label):
+    """`handshake(cx, action)` of a lazy-handshake TLS stream as a decision table: the action runs exactly once, on the TLS
+    stream, when the stream is established or the moment the handshake future resolves Ok (the stream then becomes the
+    state); while the handshake is pending or failed the action does not run, the outcome is Pending / the error, and the
+    state stays `Handshake` (no fallback)."""
+    import seqmodel
+    from core import AbsPaths, INT_CMP, VALUE_EQ, deref_value
+    from seqmodel import _arg, _set_dest
+    u = facts.unit(hs_fn, expand=True)
+    adts = [a for pth, a in facts.adts.items() if pth.endswith(self_ty)]
+    if len(adts) != 1:
+        return ctx.missing(label + "::handshake|self-type", "type %s not found" % self_ty)
+    fl = adts[0]["variants"][0]["fields"]
+    si = [i for i, x in enumerate(fl) if x["name"] == "state" or x["ty"].split("<")[0].endswith("State")]
+    if len(si) != 1:
+        return ctx.missing(label + "::handshake|state-field", "no state field in %s" % self_ty)
+    LOG, LOC = -81, 9600
+
+    def name(v):
+        return v[1] if v is not None and v[0] == "const" else "?"
+
+    def log(st, e):
+        l = st.get(LOG) or ("list", ())
+        st[LOG] = ("list", l[1] + (("const", e),))
+
+    def o_same(ev, st, t, site):
+        a = _arg(ev, st, t, 0)
+        if a is None:
+            return False
+        inner = deref_value(st, a, hops=1) if a[0] in ("ref", "refmut", "pref", "refval") else None
+        if inner is not None and inner[0] in ("refmut", "ref", "pref"):
+            return _set_dest(st, t, inner)
+        return _set_dest(st, t, a)
+
+    def o_box(ev, st, t, site):
+        a = _arg(ev, st, t, 0)
+        return a is not None and _set_dest(st, t, a)
+
+    def o_poll(ev, st, t, site):
+        who = deref_value(st, _arg(ev, st, t, 0))
+        cx = name(deref_value(st, _arg(ev, st, t, 1)))
+        if who != ("const", "HANDSHAKE_FUTURE"):
+            return False
+        alts = []
+        for nm, val in (("Pending", ("variant", "Pending", ())), ("Err", ("variant", "Ready", ((0, ("variant", "Err", ((0, ("const", "HS_ERROR")),))),))),
+                        ("Ok", ("variant", "Ready", ((0, ("variant", "Ok", ((0, ("const", "NEW_STREAM")),))),)))):
+            s2 = dict(st)
+            log(s2, "hs:%s:%s" % (cx, nm))
+            s2[t["dest"]["l"]] = val
+            alts.append(s2)
+        return alts
+
+    def o_action(ev, st, t, site):
+        f_ = deref_value(st, _arg(ev, st, t, 0))
+        tup_ = deref_value(st, _arg(ev, st, t, 1))
+        if f_ != ("const", "ACTION") or tup_ is None or tup_[0] != "variant":
+            return False
+        xs = [name(deref_value(st, x)) for _, x in tup_[2]]
+        log(st, "action:%s" % ":".join(xs))
+        return _set_dest(st, t, ("const", "ACTION_RESULT"))
+    raw = [(r"Pin.* as std::ops::Deref(Mut)?.*::deref(_mut)?$|Pin.*::(new|as_mut|get_mut|new_unchecked|as_ref|get_ref|into_ref)$|Box.* as std::ops::Deref(Mut)?.*::deref(_mut)?$|Box.*::as_mut$|AsMut.*::as_mut$", o_same),
+           (r"Box.*::new$", o_box), (r"Future.*::poll$", o_poll), (r"FnOnce.*::call_once$|FnMut.*::call_mut$|Fn.*::call$", o_action)] + seqmodel.OPTION_ORACLES
+
+    def state_after(st_):
+        v = st_.get(LOC)
+        x = dict(v[2]).get(si[0]) if v is not None and v[0] == "variant" else None
+        if x is None or x[0] != "variant":
+            return "?"
+        return "%s(%s)" % (x[1], name(deref_value(st_, dict(x[2]).get(0))))
+    rows = 0
+    for state, payload, want in (
+            ("Streaming", "TLS_STREAM", {(("action:TLS_STREAM:CX",), "ACTION_RESULT", "Streaming(TLS_STREAM)")}),
+            ("Handshake", "HANDSHAKE_FUTURE", {(("hs:CX:Pending",), "Pending", "Handshake(HANDSHAKE_FUTURE)"), (("hs:CX:Err",), "Ready(Err(HS_ERROR))", "Handshake(HANDSHAKE_FUTURE)"),
+                                               (("hs:CX:Ok", "action:NEW_STREAM:CX"), "ACTION_RESULT", "Streaming(NEW_STREAM)")})):
+        key = "%s::handshake|table|%s" % (label, state)
+        fields = tuple((i, ("variant", state, ((0, ("const", payload)),)) if i == si[0] else ("const", "F_" + x["name"])) for i, x in enumerate(fl))
+        st = {1: ("refmut", LOC), LOC: ("variant", self_ty.split("::")[-1], fields), 2: ("const", "CX"), 3: ("const", "ACTION"), LOG: ("list", ())}
+        try:
+            outs = AbsPaths(u, limit=8000, raw_oracles=raw, oracles=[INT_CMP, VALUE_EQ]).outcomes(state=st, extra_keys=(LOG, state_after))
+        except AbsPaths.Undecided as e:
+            ctx.undecided(key, str(e), u.where())
+            continue
+        rows += 1
+        got = set()
+        for (rv, _, (lg, sa)) in outs:
+            r = "?"
+            if rv == ("const", "ACTION_RESULT"):
+                r = "ACTION_RESULT"
+            elif rv is not None and rv[0] == "variant" and rv[1] == "Pending":
+                r = "Pending"
+            elif rv is not None and rv[0] == "variant" and rv[1] == "Ready":
+                x = dict(rv[2]).get(0)
+                if x is not None and x[0] == "variant":
+                    r = "Ready(%s(%s))" % (x[1], name(dict(x[2]).get(0)))
+            got.add((tuple(e[1] for e in lg[1]) if lg is not None else None, r, sa))
+        ctx.check(got == want, key, "state %s: %s" % (state, "the action runs on the established stream" if state == "Streaming" else
+                                                       "pending / failed handshake: no action, the outcome is returned, the state stays Handshake; completed handshake: the action runs once on the new stream, which becomes the state"),
+                  "state %s: handshake() can do %s, expected %s (events, answer, state afterwards)" % (state, sorted(map(str, got)), sorted(map(str, want))), u.where())
+    ctx.floor(label + "::handshake|table-rows", rows, 2, "states evaluated")
+
+
 def fwd_tls_stream(ctx, facts, self_ty, state_adt, label):
     """Exception rule for the lazy-handshake TLS streams: read/write go through handshake(cx, closure) whose closure
     forwards the same operation; flush/shutdown answer Ready(Ok) only while still in the Handshake state."""
@@ -171,24 +337,13 @@ def fwd_tls_stream(ctx, facts, self_ty, state_adt, label):
                       "%s does not forward through handshake() unchanged (ret=%s cx=%s closure=%s)" % (nm, ok_ret, cx_ok, ok_inner), f.where())
         elif nm in ("poll_flush", "poll_shutdown"):
             n += 1
-            sw, reg = arms(f, state_adt)
-            if set(reg) != {"Handshake", "Streaming"}:
-                ctx.undecided(key + "|arms", "match on the TLS state not recognised: %s" % sorted(reg), f.where())
-                continue
-            hcalls = [c for c in f.calls() if c.bb in reg["Handshake"]]
-            hrets = assigns_to_return(f, reg["Handshake"])
-            ok_h = not hcalls and len(hrets) == 1 and hrets[0][0] == "stmt" and hrets[0][2]["r"].get("v") == "Ready"
-            scalls = [c for c in f.calls() if c.bb in reg["Streaming"] and norm(c.decl or c.name).split("::")[-1] == nm]
-            srets = assigns_to_return(f, reg["Streaming"])
-            ok_s = len(scalls) == 1 and len(srets) == 1 and srets[0][0] == "call" and srets[0][1] == scalls[0].bb and \
-                any(r.kind == "arg" and getattr(r, "index", None) == 2 for r in f.roots(scalls[0].args[1], through_calls=False))
-            ctx.check(ok_h and ok_s, key + "|state-dispatch", "%s answers Ready(Ok) only while handshaking and forwards to the TLS stream once streaming" % nm,
-                      "%s: handshake arm ok=%s, streaming arm ok=%s" % (nm, ok_h, ok_s), f.where())
+            tls_dispatch_table(ctx, facts, f, self_ty, key, nm)
     ctx.floor(label + "|io-methods", n, 4, "I/O methods of the lazy TLS stream")
     # handshake(): action runs only after the handshake future resolved Ok, or when already streaming
     hs = facts.unit(hs, expand=True)
     acts = [c for c in hs.calls() if norm(c.decl or c.name).endswith("FnOnce::call_once")]
-    ctx.floor(label + "::handshake|action-calls", len(acts), 2, "invocations of the I/O action in handshake()")
+    ctx.floor(label + "::handshake|action-calls", len(acts), 1, "invocations of the I/O action in handshake()")
+    tls_handshake_table(ctx, facts, lazy_handshake_fn(facts, self_ty), self_ty, label)
     from core import L_result
     hpolls = {c.bb for c in hs.calls() if norm(c.decl or c.name).endswith("::poll")}
     hs_ok = L_result(hs, True, hpolls)
